@@ -226,6 +226,36 @@ def Net.dead (net : Net) (u w : Nat) : Option (Net × Bool) :=
       some (net.setAt u { ru with rib := rib', nbrs := aerase ru.nbrs rw.id }, d)
   | _, _ => none
 
+/-! ### the advertisement handlers above ribUpdate (advertSyncOnInterest / advertDataHandler)
+
+  Every router numbers its advertisements (the number advances when the advertisement changes);
+  a neighbour state remembers the latest number announced by a Sync Interest (`AdvertSeq`); a fetch
+  is started only for a newer number; a reply is processed only if it carries exactly that number and
+  the neighbour state still exists — replies to older fetches, duplicates of outdated replies and
+  replies for a neighbour that has been declared dead are ignored. -/
+
+/-- `advertSyncOnInterest`: a Sync Interest announcing number `s` starts a fetch iff `s` is newer than
+    the remembered `AdvertSeq` (0 for a fresh neighbour state) -/
+def syncStartsFetch (cur s : Nat) : Bool := cur < s
+
+/-- `advertDataHandler`: the guard `ns == nil` / `ns.AdvertSeq != seqNo` -/
+def replyAccepted (hasNbr : Bool) (cur s : Nat) : Bool := hasNbr && cur == s
+
+/-- `advertSyncOnInterest` on the neighbour table: the state exists afterwards, on `face` -/
+def Net.ping (net : Net) (u w face : Nat) : Net :=
+  match net.get? u, net.get? w with
+  | some ru, some rw => net.setAt u { ru with nbrs := aset ru.nbrs rw.id face }
+  | _, _ => net
+
+/-- an accepted advertisement Data of neighbour `w` with content `adv` is processed by `ribUpdate`
+    (`Net.fetch` is the case `adv` = w's current advertisement) -/
+def Net.applyAdvert (net : Net) (u w : Nat) (adv : List AdvEntry) : Option (Net × Bool) :=
+  match net.get? u, net.get? w with
+  | some ru, some rw =>
+    let (rib', d) := ribUpdate ru.id ru.rib rw.id adv
+    some (net.setAt u { ru with rib := rib' }, d)
+  | _, _ => none
+
 /-- `GetFibEntries`: (face1, cost1, face2, cost2) of an entry, face 0 when the next hop has no
     neighbour state -/
 def fibEntriesOf (nbrs : List (Nat × Nat)) (e : Entry) : Nat × Nat × Nat × Nat :=
